@@ -390,6 +390,7 @@ class C10(Property):
             cases.append(self._accept_case(rng, rng.choice([0, 1, 1, 2, 2, 3, 3, 4, 6]), rng.choice([None, None] + WRONGS)))
         for _ in range(share(0.03)):
             cases.append(self._accept_case(rng, rng.randint(0, 3), None, kind=rng.choice(['num', 'unitobj', 'dimless'])))
+        cases.extend(self._equilibrium_grid(rng))
         for _ in range(share(0.12)):
             cases.append(self._equilibrium_case(rng))
         for cls, nargs in (('MassAction', 1), ('Arrhenius', 2), ('Eyring', 3), ('Radiolytic', 1)):
@@ -476,14 +477,55 @@ class C10(Property):
                 cu_ = [['mol', 1], ['dm', -3]] if rng.random() < 0.35 else _conc_units(rng)
                 for name, x in cu_:
                     ul.append([name, x * (1 if e > 0 else -1)])
-        else:             # wrong dimension
-            e2 = e + rng.choice([-1, 1, 2])
-            ul = [['molar', e2]] if e2 else []
-            if rng.random() < 0.3:
-                ul.append([rng.choice(TIME_UNITS), -1])
+        else:             # wrong dimension, in SI-coherent (simplified unit magnitude 1) and non-coherent units alike
+            ul = self._wrong_eq_unit(rng, e)
         kind = 'num' if rng.random() < 0.05 else 'qty'
         param = {'num': _rand_mag(rng)} if kind == 'num' else {'mag': _rand_mag(rng), 'u': ul}
         return {'kind': 'equilibrium', 'reac': reac, 'prod': prod, 'param': param}
+
+    def _wrong_eq_unit(self, rng, e):
+        """a unit expression whose dimension is NOT concentration^e: another power of concentration (each factor in its own
+        unit: mol/m3 and mM are SI-coherent, M, uM, mol/cm3 are not), the right power with a time / length / mass / temperature
+        factor too many, a rate-constant unit, or a bare base unit; for e = 0 every non-dimensionless unit is wrong"""
+        want = tuple(e * x for x in CONC)
+        for _ in range(50):
+            r = rng.random()
+            ul = []
+            if r < 0.35:
+                e2 = e + rng.choice([-2, -1, 1, 2])
+                for _ in range(abs(e2)):
+                    for name, x in _conc_units(rng):
+                        ul.append([name, x * (1 if e2 > 0 else -1)])
+            elif r < 0.6:
+                for _ in range(abs(e)):
+                    for name, x in _conc_units(rng):
+                        ul.append([name, x * (1 if e > 0 else -1)])
+                ul.append([rng.choice(TIME_UNITS + ['m', 'cm', 'kg', 'g', 'K', 'mol', 'mmol']), rng.choice([-1, 1])])
+            elif r < 0.8:
+                ul = _rate_unit(rng, rng.randint(0, 3))
+            else:
+                ul = [[rng.choice(['s', 'minute', 'm', 'km', 'kg', 'g', 'K', 'mol', 'umol', 'A']), rng.choice([-1, 1, 2])]]
+            rng.shuffle(ul)
+            if _book_u(ul)[1] != want:
+                return ul
+        return [['s', -1]]
+
+    def _equilibrium_grid(self, rng):
+        """every delta = products - reactants in -2..2 (delta = 0: equimolar, the expected unit is the dimensionless molar**0)
+        x a fixed list of SI-coherent and non-coherent units: right ones must be handled as the model says, wrong ones refused"""
+        shapes = [({'A': 1}, {'D': 1}), ({'A': 1, 'B': 1}, {'D': 1, 'E': 1}), ({'A': 2}, {'D': 1, 'E': 1}),
+                  ({'A': 1}, {'D': 1, 'E': 1}), ({'A': 2}, {'D': 1}), ({'A': 1}, {'D': 2, 'E': 1}), ({'A': 2, 'B': 1}, {'D': 1}),
+                  ({}, {'D': 1}), ({'A': 2}, {})]
+        units = [[], [['mol', 1], ['m', -3]], [['millimolar', 1]], [['s', -1]], [['m', 3], ['mol', -1], ['s', -1]], [['m', 3], ['mol', -1]],
+                 [['mol', 2], ['m', -6]], [['m', 1]], [['kg', 1]], [['K', 1]], [['millimolar', -1]], [['millimolar', 2]],
+                 [['molar', 1]], [['micromolar', 1]], [['minute', -1]], [['molar', -1]], [['molar', 2]], [['mol', 1], ['cm', -3]],
+                 [['km', 1]], [['g', 1]], [['hour', -1], ['molar', -1]], [['molar', 1], ['s', -1]], [['mol', 1], ['m', -3], ['s', -1]]]
+        out = []
+        for reac, prod in shapes:
+            for ul in units:
+                out.append({'kind': 'equilibrium', 'reac': dict(reac), 'prod': dict(prod),
+                            'param': {'mag': rng.choice(['1', '3', _rand_mag(rng)]), 'u': [list(x) for x in ul]}})
+        return out
 
     def _ode_case(self, rng, tier, named, spectator=False):
         subst, rxns = _rand_system(rng, tier, spectator)
@@ -638,7 +680,13 @@ class C10(Property):
                 r = self._impl_case(c)
                 return ('equilibrium float-factor quirk: exact model accepts, real code refuses (float64 ==)' if r == 'ValueError'
                         else 'equilibrium float-factor class: exact factor = 1000^delta not written in molar, real code %s' % r)
-            return 'equilibrium delta=%d' % (sum(c['prod'].values()) - sum(c['reac'].values()))
+            e = sum(c['prod'].values()) - sum(c['reac'].values())
+            p = c['param']
+            if 'u' not in p:
+                return 'equilibrium delta=%d plain constant' % e
+            f, d = _book_u(p['u'])
+            tag = 'right dimension' if d == tuple(e * x for x in CONC) else 'WRONG dimension'
+            return 'equilibrium delta=%d %s, unit %s' % (e, tag, 'SI-coherent (factor 1)' if f == 1 else 'not coherent')
         if k == 'as_reactions':
             return 'as_reactions mode=%s units=%s K=%s' % (c['mode'], c['units'], 'plain' if 'num' in c['K'] else 'quantity')
         if k == 'ode_expr':
